@@ -71,7 +71,28 @@ def cases(tier, rng):
             hists = [[rng.choice(SYMS) for _ in range(rng.randint(0, 30 if rng.random() < 0.2 else 6))] for _ in range(ns)]
             out.append("m%d %s" % (k, scenario(sock, hists)))
             k += 1
+    # two connections announcing the same identity: subscriptions are counted per CONNECTION; the one connected last is
+    # the subscriber and starts without any
+    for sock in ("PUB", "XPUB"):
+        for idl in (1, 16):
+            ident = W.tok(b"S" * idl)
+            for keep_a in (True, False):
+                ops = ["attach a SUB id=" + ident, "feed a " + W.tok(W.msg([b"\x01a"]))]
+                ops += ["settle"] if sock == "PUB" else ["recv", "recv"]
+                if not keep_a:
+                    ops += ["eof a"] + (["settle"] if sock == "PUB" else ["recv"])
+                ops += ["attach b SUB id=" + ident, "feed b " + W.tok(W.msg([b"\x01b"]))]
+                ops += ["settle"] if sock == "PUB" else ["recv", "recv"]
+                for f in (b"a1", b"b1", b"ab", b"c"):
+                    ops.append("send %s;7061796c6f6164" % W.tok(f))
+                ops += ["wire b"]
+                out.append("i%d sock %s / %s" % (k, sock, " / ".join(ops)))
+                k += 1
     return out
+
+
+def compare_filter(line):
+    return not line.split()[0].startswith("i")      # the model assumes distinct identities
 
 
 def norm_impl(o, line):
@@ -82,6 +103,12 @@ def judge(line, obs, orc):
     if S.bad_obs(obs):
         return "implementation " + str(obs)[:80]
     t, po = S.pair_ops_obs(line, obs)
+    if line.split()[0].startswith("i"):
+        got = [tk for op, tk in po if op[0] == "wire" and op[1] == "b"][0].split("=", 1)[1]
+        want = W.msg([b"b1", b"payload"]).hex()
+        if got != want:
+            return "a connection that subscribed to 'b' only (its identity was used by an earlier connection subscribed to 'a') received %s, expected %s" % (got[:80], want)
+        return None
     fed = {}
     names = []
     for op, tk in po:
